@@ -64,8 +64,34 @@ class StoreGen:
             self.ops.append(f"receipt {t}")
         self.ops.append("chainmeta")
 
+    def scripted_prefix(self):
+        """boundary pattern: the interchain count of the rolled-back blocks equals the whole cumulative count"""
+        r = self.r
+        for _ in range(r.randint(0, 3)):
+            self.txc += 1
+            self.ops.append(f"persist txs=t{self.txc} counter=")
+            self.alltx.append(f"t{self.txc}")
+            self.height += 1
+            self.serial += 1
+            self.syms.append(f"B{self.height}.{self.serial}")
+        keep = self.height
+        for _ in range(r.randint(1, 3)):
+            self.txc += 1
+            self.ops.append(f"persist txs=t{self.txc} counter={r.choice(CHAINS)}:{r.choice([0, 1, 2, 3])}")
+            self.alltx.append(f"t{self.txc}")
+            self.height += 1
+            self.serial += 1
+            self.syms.append(f"B{self.height}.{self.serial}")
+        t = r.choice([keep, keep, keep + 1 if keep + 1 < self.height else keep])
+        self.ops.append(f"rollback {t}")
+        self.height = t
+        self.tags.add("rollback:first-interchain-block")
+        self.queries(full=True)
+
     def history(self, n, rollbacks=True):
         r = self.r
+        if rollbacks and r.random() < 0.3:
+            self.scripted_prefix()
         for _ in range(n):
             self.persist()
             if r.random() < 0.3:
